@@ -9,6 +9,9 @@
                 (1 Send, 2 Sync, 4 Copy, 8 Clone); b = 0: N generic, 1: N generic and the caller
                 states `where N::ArrayType<T>: Copy`, 2 + n: N = Un.   obs: 1 | 0
      op 30      borrow program `variant`... over signature a:  [30; a; variant]   obs: 1 | 0
+     op 50      code generic over S: Lengthen<u8> / Shorten<u8> whose result type is S after a round
+                trip: variant 0 append+pop_back, 2 prepend+pop_front, 1 pop_back+append,
+                3 pop_front+prepend, called at length a.   obs: 1 | 0
      op 40      implementing ArrayLength outside the crate: variant 0 with a foreign ArrayType,
                 1 with the crate's own (public, hidden) ImplEven type; 2: a plain generic use *)
 From GA Require Import Base Codec TypeLevel Sigs SigDecls.
@@ -74,6 +77,7 @@ Definition run_c12 (case : list Z) : list Z :=
     else if (op =? 20) || (op =? 21) then run_auto op variant a b
     else if op =? 30 then run_lt a variant
     else if op =? 40 then run_seal variant
+    else if op =? 50 then [enc_bool (roundtrip_typechecks variant)]
     else [-1]
   | _ => [-1]
   end.
